@@ -6,7 +6,7 @@
     paths are unbounded. The glob compiler/engine is the oracle [gm] (per mode, per
     (case-insensitive, text) pattern, per path relative to the literal directory). *)
 From Verif Require Import Base.Prelude.
-From Verif Require Model.C30 Model.C32.
+From Verif Require Model.C30 Model.C32 Proofs.C30.
 From Verif Require Import Model.C31 Proofs.C31.
 Local Open Scope N_scope.
 
@@ -29,6 +29,42 @@ Theorem C31_resolved : forall cwd base (bad : pid -> bool) (a : ast) (e : fexpr)
 Proof.
   intros cwd base bad a e H. split; [eapply resolve_ok; eauto | intros; apply denotes].
 Qed.
+
+(** What the cwd-relative literal kinds denote, through C32's characterisation of
+    [parse_fs_path]: [cwd-file:i] (resp. [cwd:i]) resolved from [cwd] matches exactly the path
+    [l] (resp. the paths with prefix [l]) where [base/l] is the lexically normalized
+    [cwd/i] — for every cwd, base and input for which resolution succeeds. *)
+Theorem C31_cwd_literal_denotes : forall cwd base bad (file : bool) input pt,
+  C32.has_root base = true -> C32.has_root (C32.push cwd input) = true ->
+  resolve_pattern cwd base bad (if file then KCwdFile else KCwd) input = C32.Ok pt ->
+  exists l,
+    C32.normalize_comps (C32.components (C32.push cwd input))
+    = C32.components base ++ map C32.Normal l /\
+    forall gm p,
+      den_pattern gm pt p =
+      if file then path_eqb l p
+      else match C30.strip_prefix neqb l p with Some _ => true | None => false end.
+Proof. exact cwd_literal_denotes. Qed.
+
+(** Pruned tree walks see exactly the denoted set: the C30 soundness theorem applies to every
+    matcher [to_matcher] can build, so a [visit] answer never hides a denoted path. *)
+Theorem C31_visit_sound : forall (gm : bool -> pid -> rpath -> bool) (e : fexpr),
+  (C30.uses_prefix_globs (to_matcher e) = true -> C30.gm_prefix_closed gm) ->
+  forall d q, q <> [] ->
+    C30.visit_allows neqb (C30.mvisit neqb gm (to_matcher e) d) q (den gm e (d ++ q)) = true.
+Proof.
+  intros gm e Hc d q Hq. rewrite <- denotes.
+  apply (Proofs.C30.all_sound neqb neqb_spec gm); auto.
+Qed.
+
+(** The literal directory of a glob pattern: [split_glob_path] cuts the input in two, and the
+    directory part contains no glob character (nor, for case-insensitive patterns, any ASCII
+    letter), so the glob oracle is only ever asked about the part below a literal path. *)
+Theorem C31_split_glob_path : forall (icase : bool) (input : bytes),
+  fst (split_glob_path icase input) ++ snd (split_glob_path icase input) = input /\
+  existsb (fun c => if icase then is_ascii_alphabetic c || is_glob_char c else is_glob_char c)
+          (fst (split_glob_path icase input)) = false.
+Proof. intros icase input. apply split_glob_path_by_spec. Qed.
 
 (** The pieces [C31_denotes] rests on, for arbitrary name types: what the trees built by the
     constructors contain. *)
@@ -95,3 +131,4 @@ Proof. eexists. split; [reflexivity|]. repeat split. Qed.
 Print Assumptions C31_denotes.
 Print Assumptions C31_resolved.
 Print Assumptions C31_okb_spec.
+Print Assumptions C31_visit_sound.
